@@ -444,6 +444,9 @@ func c02(env *Env, rep *Report) {
 	for k, v := range counts {
 		rep.add("expect_"+k, int64(v))
 	}
+	if gwBin() != "" && env.Shard == 0 {
+		bindCore(rep, "C02")
+	}
 	rep.add("distinct", int64(distinct))
 	rep.add("states", int64(distinct))
 }
